@@ -1,2 +1,130 @@
-(* C16 -- placeholder, theorems follow *)
-From DS Require Import Model.Prune.
+(* C16 -- prune and verify remove exactly what they should.
+   Only statements, [exact], Print Assumptions and Examples live here. *)
+From Coq Require Import List NArith Arith Bool.
+From DS Require Import Gen.Constants Base.Bytes Base.Hash Base.HexId Base.FS Model.LocalStore Model.Prune
+     Proofs.LocalStoreProofs Proofs.PruneProofs.
+Import ListNotations.
+
+(* prune_safe: whatever LocalStore.Prune returns (nil, ChunkMissing, an I/O error, even an exhausted
+   recursion budget), for every path of the tree: it is as before, or it existed and is gone and then it
+   is a ".tmp-cacnk*" name or the canonical own-format name of an id outside the keep-set.  So referenced
+   chunks, chunks of the other format, junk files and directories are untouched. *)
+Theorem C16_prune_safe : forall (st : store) (keep : id -> bool) fuel bstr s0 s' e,
+  prune fuel st bstr keep s0 = (s', e) ->
+  forall q, stat q s' = stat q s0 \/
+            (stat q s' = None /\ stat q s0 <> None /\
+             (has_prefix (last q []) tmpChunkPrefix_bytes = true \/
+              exists i, wf_id i /\ keep i = false /\ q = snd (name_from_id st i))).
+Proof. exact prune_safe. Qed.
+Print Assumptions C16_prune_safe.
+
+(* ... in particular never a canonical chunk of the other format (by C20_name_injective it is not a
+   canonical own-format name, and it does not start with the temp prefix). *)
+
+(* prune_complete: result nil => no canonical own-format chunk FILE with id outside keep remains, and no
+   temp-named FILE remains anywhere below the base. *)
+Theorem C16_prune_complete : forall (st : store) (keep : id -> bool) fuel bstr s0 s',
+  is_dir (stat (st_base st) s0) = true ->
+  prune fuel st bstr keep s0 = (s', None) ->
+  (forall i en, wf_id i -> keep i = false ->
+     stat (snd (name_from_id st i)) s' = Some en -> is_dir (Some en) = true) /\
+  (forall t en, stat (st_base st ++ t) s' = Some en ->
+     has_prefix (last (st_base st ++ t) []) tmpChunkPrefix_bytes = true -> is_dir (Some en) = true).
+Proof. exact prune_complete. Qed.
+Print Assumptions C16_prune_complete.
+
+(* prune_stray_name_errors: a non-temp file below the base whose base name parses (own format) to an id
+   outside keep, while nothing exists at that id's canonical path (chunk name in a wrong directory,
+   upper-case hex name), makes Prune return non-nil. *)
+Theorem C16_prune_stray_name_errors : forall (st : store) (keep : id -> bool) fuel bstr s0 t en i,
+  is_dir (stat (st_base st) s0) = true ->
+  stat (st_base st ++ t) s0 = Some en -> is_dir (Some en) = false ->
+  has_prefix (last (st_base st ++ t) []) tmpChunkPrefix_bytes = false ->
+  base_file_id (st_unc st) (last (st_base st ++ t) []) = Some i -> keep i = false ->
+  stat (snd (name_from_id st i)) s0 = None ->
+  snd (prune fuel st bstr keep s0) <> None.
+Proof. exact prune_stray_errors. Qed.
+Print Assumptions C16_prune_stray_name_errors.
+
+(* The filter of the walk callbacks (suffix test on the path string, id from the base name) is a
+   function of the base name alone. *)
+Theorem C16_filter_is_on_base_name : forall unc dstr nm,
+  chunk_file_id unc (join_str dstr nm) nm = base_file_id unc nm.
+Proof. exact chunk_file_id_base. Qed.
+Print Assumptions C16_filter_is_on_base_name.
+
+(* verify_exact (workers taken in feeding order): if Verify returns nil then
+   - every reported id's canonical own-format object fails NewChunkFromStorage,
+   - every canonical own-format chunk file whose object fails NewChunkFromStorage is reported,
+   - without repair the tree is unchanged; with repair every path is as before or is the removed
+     canonical path of a reported id, and every reported id whose canonical path is a file is removed. *)
+Theorem C16_verify_exact : forall (H : bytes -> id) (zdecomp : bytes -> option bytes) (st : store)
+  fuel bstr repair s0 s' msgs,
+  is_dir (stat (st_base st) s0) = true ->
+  verify H zdecomp fuel st bstr repair s0 = (s', msgs, None) ->
+  (forall i, In i (reported msgs) -> wf_id i /\ exists sum, get_chunk H zdecomp st i s0 = GetInvalid sum) /\
+  (forall i en, wf_id i -> stat (snd (name_from_id st i)) s0 = Some en -> is_dir (Some en) = false ->
+     (exists sum, get_chunk H zdecomp st i s0 = GetInvalid sum) -> In i (reported msgs)) /\
+  (repair = false -> s' = s0) /\
+  (forall q, stat q s' = stat q s0 \/
+     (stat q s' = None /\ repair = true /\ exists i, In i (reported msgs) /\ q = snd (name_from_id st i))) /\
+  (repair = true -> forall i en, In i (reported msgs) -> stat (snd (name_from_id st i)) s0 = Some en ->
+     is_dir (Some en) = false -> stat (snd (name_from_id st i)) s' = None).
+Proof. exact verify_exact. Qed.
+Print Assumptions C16_verify_exact.
+
+(* Finding recorded as a theorem: NewChunkFromStorage accepts ANY undecodable or empty object under the
+   all-zero id (Chunk.ID() returns the zero ChunkID when Data() fails), so Verify does not report it. *)
+Theorem C16_zero_id_accepts_undecodable : forall (H : bytes -> id) (zdecomp : bytes -> option bytes) (b : bytes) unc,
+  storage_data zdecomp unc b = None ->
+  new_chunk_from_storage H zdecomp zero_id b unc false = GetOk b.
+Proof. exact zero_id_accepts_undecodable. Qed.
+Print Assumptions C16_zero_id_accepts_undecodable.
+
+(* ---------- non-vacuity ---------- *)
+Definition ex_H (b : bytes) : id := fold_right N.add 0%N b.
+Definition ex_zdecomp (b : bytes) : option bytes :=
+  match b with 40 :: 181 :: r => Some r | _ => None end%N.
+Definition ex_st : store := mkStore [[115]%N] false false.      (* base "s", compressed *)
+Definition ex_keep (i : id) : bool := N.eqb i 7.
+Definition nm6 := hex_id 6%N.
+Definition nm7 := hex_id 7%N.
+Definition d0 := firstn 4 nm6.
+Definition ex_tree : node :=
+  Dir meta0 [([115]%N, Dir meta0
+    [(d0, Dir meta0 [(nm6 ++ ext_of false, File meta0 [40; 181; 1; 2; 3]%N);     (* unreferenced, valid *)
+                     (nm7 ++ ext_of false, File meta0 [40; 181; 9]%N);           (* referenced, INVALID (sum 9) *)
+                     (nm6, File meta0 [1; 2; 3]%N);                              (* other format *)
+                     (tmp_name [46; 49]%N, File meta0 [40]%N)]);                 (* abandoned temp file *)
+     ([82]%N, File meta0 [1]%N)])].                                              (* junk "R" *)
+
+Example C16_example_prune :
+  let '(s', e) := prune default_fuel ex_st [115]%N ex_keep ex_tree in
+  e = None /\
+  map (fun pe => map (@length byte) (fst pe)) (listing [] s') = [[]; [1]; [1; 4]; [1; 4; 70]; [1; 4; 64]; [1; 1]].
+Proof. vm_compute. split; reflexivity. Qed.
+
+Example C16_example_verify :
+  let '(s', msgs, e) := verify ex_H ex_zdecomp default_fuel ex_st [115]%N true ex_tree in
+  e = None /\ reported msgs = [7%N] /\ stat ([[115]%N; d0; nm7 ++ ext_of false]) s' = None /\
+  stat ([[115]%N; d0; nm6 ++ ext_of false]) s' = Some (EFile meta0 [40; 181; 1; 2; 3]%N).
+Proof. vm_compute. repeat split; reflexivity. Qed.
+
+(* a chunk name in the wrong directory, id outside keep, canonical path absent: ChunkMissing *)
+Example C16_example_stray :
+  snd (prune default_fuel ex_st [115]%N (fun _ => false)
+         (Dir meta0 [([115]%N, Dir meta0 [([48; 48]%N, Dir meta0 [(hex_id 300%N ++ ext_of false, File meta0 [1]%N)])])]))
+  = Some (WeMissing 300%N).
+Proof. vm_compute. reflexivity. Qed.
+
+(* the alias race (finding): an upper-case alias listed before the invalid canonical chunk; if the worker
+   runs at once (eager schedule) the walk's lstat of the canonical file fails, in feeding order it does not *)
+Definition up (s : bytes) : bytes := map (fun c => if (97 <=? c)%N then (c - 32)%N else c) s.
+Definition ex_alias_tree : node :=
+  Dir meta0 [([115]%N, Dir meta0
+    [(firstn 4 (hex_id 171%N), Dir meta0 [(up (hex_id 171%N) ++ ext_of false, File meta0 [40; 181; 171]%N);
+                                         (hex_id 171%N ++ ext_of false, File meta0 [40; 181; 1]%N)])])].
+Example C16_example_alias_race :
+  snd (verify_eager ex_H ex_zdecomp default_fuel ex_st [115]%N true ex_alias_tree) = Some (WeErrno ENOENT) /\
+  snd (verify ex_H ex_zdecomp default_fuel ex_st [115]%N true ex_alias_tree) = None.
+Proof. vm_compute. split; reflexivity. Qed.
